@@ -2,7 +2,7 @@
    all the assumed raft safety properties), with at most a minority of nodes down at every step. Witnesses closed by
    vm_compute. Each defect was first reproduced on the real code by the harness (see props/C05/NOTES.md). *)
 From Coq Require Import List Arith NArith ZArith Bool Lia.
-From OG Require Import C05.Model C05.Trunc C05.Catchup.
+From OG Require Import C05.Model C05.Trunc C05.Catchup C05.ReadPath.
 Import ListNotations.
 
 (* every prefix of the trace keeps a majority available *)
@@ -176,3 +176,15 @@ Example forced_step_is_not_sound :
 Proof.
   vm_compute. intros [H|H]; [discriminate|]. specialize (H 2). vm_compute in H. lia.
 Qed.
+
+(* (8) the read path: when the store of the master partition fails, electRgMaster makes the FIRST ONLINE slave peer the
+   master and queries read the master partition - whether or not that member has caught up. Member 1 is down during
+   an acknowledged overwrite, restarts, and right then the master's store is killed: with one store down the replica
+   that answers returns the old value. Holds with every repair of this round switched on (cfg_repaired). *)
+Theorem master_elected_before_catch_up_refuted :
+  exists es s nm ps', run raft_ref (init (cfg_repaired 3 2)) es = Some s /\
+    minority_always (init (cfg_repaired 3 2)) es = true /\
+    In (0, 2%N, [(1%N, 11%Z)]) (acked s) /\
+    elect_today s = Some (nm, ps') /\ avail (nodes s nm) = true /\ caught_up s nm = false /\
+    read s nm 1%N = Some 10%Z /\ get (ents_store (glog s)) 1%N = Some 11%Z.
+Proof. exists lagmaster_trace. eexists. exists 1, [0; 2]. vm_compute. repeat split. left; reflexivity. Qed.
